@@ -339,7 +339,12 @@ fn run() {
     let mut report = Report::new(&prop);
     let replay = std::env::var("VERIF_REPLAY").ok();
     match prop.as_str() {
-        "C05" => c05::run(&mut report, replay.as_deref()),
+        "C05" => {
+            c05::run(&mut report, replay.as_deref());
+            let rule = report.rule.clone();
+            ucmd::run(&mut report);
+            report.rule = format!("{rule} + user commands (certify, trust, ...) on disk: the written records certify nothing beyond the store before plus the entry asked for");
+        }
         "C01" | "C02" | "C03" | "C04" | "C06" | "C12" => {
             core::run(&mut report, replay.as_deref());
             if prop == "C12" || prop == "C04" {
